@@ -262,13 +262,13 @@ def run_case(d, max_indices=0):
 
 
 def run_case_spread(d):
-    return run_case(d, max_indices=6)
+    return run_case(d, max_indices=4)
 
 
 SUBCHECKS = [
-    SubCheck("single_spread", run_case_spread, strategy=lambda: st_case(threaded=False), quick=32, thorough=800,
+    SubCheck("single_spread", run_case_spread, strategy=lambda: st_case(threaded=False), quick=16, thorough=800,
              min_per_shard=1),
-    SubCheck("threaded_spread", run_case_spread, strategy=lambda: st_case(threaded=True), quick=48, thorough=1600,
+    SubCheck("threaded_spread", run_case_spread, strategy=lambda: st_case(threaded=True), quick=32, thorough=1600,
              min_per_shard=1),
-    SubCheck("all_indices", run_case, strategy=lambda: st_case(), quick=16, thorough=1200, min_per_shard=1),
+    SubCheck("all_indices", run_case, strategy=lambda: st_case(), quick=8, thorough=400, min_per_shard=1),
 ]
